@@ -56,6 +56,18 @@ Theorem C08_other_steps_keep_the_retained_set :
   forall s a, a <> ACProcess -> (forall cb, a <> AInstall cb) -> s_active (fst (step s a)) = s_active s.
 Proof. exact step_keeps_active. Qed.
 
+(* a reporter installed again (set_reporter replaces the collector): nothing is retained from
+   before, nothing drained is kept; threads, rings, spans and the registry are untouched.  With
+   C04_cancelled_stays_silent: in the cancelable configuration a trace opened under the old
+   collector is reported by the new one only if it is started again *)
+Theorem C08_reinstall_starts_afresh :
+  forall s cb,
+    s_pc s = PIdle ->
+    let s' := fst (step s (AInstall cb)) in
+    s_active s' = [] /\ s_batch s' = batch_empty /\ s_cancelable s' = cb /\ s_installed s' = true /\
+    s_pc s' = PIdle /\ s_registry s' = s_registry s /\ s_threads s' = s_threads s /\ s_spans s' = s_spans s.
+Proof. exact reinstall_starts_afresh. Qed.
+
 Print Assumptions C08_commit_removes.
 Print Assumptions C08_cancel_removes.
 Print Assumptions C08_active_only_started.
@@ -64,3 +76,4 @@ Print Assumptions C08_receiver_removed_only_when_empty.
 Print Assumptions C08_finished_trace_is_forgotten.
 Print Assumptions C08_retained_only_grows_by_starts.
 Print Assumptions C08_other_steps_keep_the_retained_set.
+Print Assumptions C08_reinstall_starts_afresh.
